@@ -29,11 +29,15 @@ type c20Case struct {
 	PS3      bool     `json:"ps3,omitempty"`
 	TitleID  string   `json:"title_id,omitempty"`
 	RootName string   `json:"root_name,omitempty"`
+	// DirSpell: how the directory is written on the command line: "" (absolute, tidy) | "linkup" ("..") behind a symlink
+	DirSpell string `json:"dir_spell,omitempty"`
 	// decrypt
 	Key     hx.BStr           `json:"key,omitempty"`
 	Regions []refcrypt.Region `json:"regions,omitempty"`
 	Sectors int               `json:"sectors,omitempty"`
 	Seed    uint64            `json:"seed,omitempty"`
+	// Mark: decrypt-redump only: the image also carries a 3k3y watermark ("enc" | "dec") in its plain first region
+	Mark string `json:"mark,omitempty"`
 	// ServeIn: directory under a served root where the output is placed for the serve-back check
 	ServeIn string `json:"serve_in"`
 }
@@ -45,13 +49,19 @@ func genC20(t *rapid.T) c20Case {
 	if c.Tool == "make-iso" {
 		base := genC07(t)
 		c.Tree, c.PS3, c.TitleID, c.RootName = base.Tree, base.PS3, base.TitleID, base.RootName
+		// DirSpell "linkup" is not generated: the tool refuses such a spelling with an error (members not found), which
+		// is not a wrong output; resolving the directory would change the volume name of symlinked directories and with
+		// it the agreement with the server (DESIGN 6.2)
 		return c
 	}
 	c.Key = hx.BStr(rapid.SliceOfN(rapid.Byte(), 16, 16).Draw(t, "key"))
 	c.Sectors = rapid.IntRange(6, 120).Draw(t, "sectors")
 	c.Seed = rapid.Uint64Range(1, 1<<40).Draw(t, "seed")
 	c.Regions = genRegions(t, c.Sectors)
-	if c.Tool == "decrypt-3k3y" {
+	if c.Tool == "decrypt-redump" {
+		c.Mark = rapid.SampledFrom([]string{"", "", "enc", "dec"}).Draw(t, "mark")
+	}
+	if c.Tool == "decrypt-3k3y" || c.Mark != "" {
 		// the watermark area (sectors 1..2) must lie in the first plain region
 		for c.Regions[0].End < 3 {
 			for i := range c.Regions {
@@ -73,6 +83,12 @@ func (c c20Case) storedImage() []byte {
 	if c.Tool == "decrypt-3k3y" {
 		copy(data[0xF70:], wmEnc)
 		copy(data[0xF80:], []byte(c.Key))
+	}
+	switch c.Mark {
+	case "enc":
+		copy(data[0xF70:], wmEnc)
+	case "dec":
+		copy(data[0xF70:], wmDec)
 	}
 	return data
 }
@@ -142,7 +158,17 @@ func runC20(c c20Case, st *hx.Stats) error {
 		if c.PS3 {
 			args = append(args, "--ps3-mode")
 		}
-		args = append(args, filepath.Join(fx.Tmp, strings.TrimPrefix(fx.Root, "/")))
+		src := filepath.Join(fx.Tmp, strings.TrimPrefix(fx.Root, "/"))
+		if c.DirSpell == "linkup" {
+			// the same directory, as the system resolves it: hop/via -> src, then ".." and its name again
+			os.Mkdir(filepath.Join(tmp, "hop"), 0o755)
+			if err := os.Symlink(src, filepath.Join(tmp, "hop", "via")); err != nil {
+				return err
+			}
+			src = filepath.Join(tmp, "hop", "via") + "/../" + filepath.Base(src)
+			st.Label("directory spelled with '..' behind a symlink")
+		}
+		args = append(args, src)
 	default:
 		stored := c.storedImage()
 		in := filepath.Join(tmp, "in.iso")
@@ -153,9 +179,14 @@ func runC20(c c20Case, st *hx.Stats) error {
 		a, _ := refcrypt.Plaintext(stored, []byte(c.Key), tab, true, false)
 		b, _ := refcrypt.Plaintext(stored, []byte(c.Key), tab, true, true)
 		expect = [][]byte{a, b}
-		if c.Tool == "decrypt-3k3y" {
+		if c.Tool == "decrypt-3k3y" || c.Mark != "" {
 			// the 256-byte watermark/key area of the output is a don't-care (kept or zeroed)
 			expect = append(expect, mask3k3y(a), mask3k3y(b))
+		}
+		if c.Mark != "" {
+			st.Label("redump image carrying a 3k3y watermark: " + c.Mark)
+		}
+		if c.Tool == "decrypt-3k3y" {
 			args = []string{"decrypt", "3k3y", in}
 		} else {
 			kf := filepath.Join(tmp, "in.dkey")
